@@ -252,6 +252,15 @@ def _check_guards(res: Result, proj: Project, aw: AlgWorld, schemes):
         ("ParCons(auxiliary_algorithm=BordaCount())", None),
     ]
     allowed = {"ScoringSchemeNotHandledException", "InompleteRankingsIncompatibleWithScoringSchemeException"}
+    exact_refusal = {lbl for lbl, _i in subjects}
+    # every other configuration: when it declares a scheme relevant it must get past its guard (what it does when it
+    # declared it not relevant is specified only for Borda, PickAPerm and BioConsert started from them)
+    try:
+        for lbl, inst_, _kind in aw.configs():
+            if lbl not in exact_refusal and not lbl.startswith("ExactAlgorithmCplex"):
+                subjects.append((lbl, inst_))
+    except (AbsRaise, Unsupported):
+        pass
     for label, inst in subjects:
         if inst is None:
             continue
@@ -282,7 +291,8 @@ def _check_guards(res: Result, proj: Project, aw: AlgWorld, schemes):
                 else:
                     if p and outcome != "accepted":
                         bad = bad or (slabel, dname, f"predicate says relevant but compute is {outcome}")
-                    if not p and (not outcome.startswith("refused:") or outcome.split(":")[1] not in allowed):
+                    if not p and label in exact_refusal and \
+                            (not outcome.startswith("refused:") or outcome.split(":")[1] not in allowed):
                         bad = bad or (slabel, dname, f"predicate says not relevant but compute is {outcome}")
         res.check(bad is None, "A3", f"{label}:guard-matches-predicate", comp.loc(),
                   ok_detail=f"{len(schemes)} schemes x (incomplete, complete): refused with the documented exception iff "
@@ -290,6 +300,21 @@ def _check_guards(res: Result, proj: Project, aw: AlgWorld, schemes):
                   bad_detail=f"scheme {bad[0]} on the {bad[1]} dataset: {bad[2]}" if bad else "")
     for q in list(rt.overrides):
         del rt.overrides[q]
+
+
+def _guarded_by_predicate(raise_node: ast.AST, f) -> bool:
+    """the raise is control-dependent on a test that calls the declared relevance predicate (or the scheme equivalence
+    test it is defined by): `if not self.is_scoring_scheme_relevant_when_incomplete_rankings(s): raise ...`"""
+    from ..loader import parent
+    p = parent(raise_node)
+    while p is not None and p is not f.node:
+        if isinstance(p, (ast.If, ast.While)):
+            for c in ast.walk(p.test):
+                if isinstance(c, ast.Call) and isinstance(c.func, ast.Attribute) and \
+                        c.func.attr in (PRED, "is_equivalent_to", "is_equivalent_to_on_complete_rankings_only"):
+                    return True
+        p = parent(p)
+    return False
 
 
 def _check_no_other_refusal(res: Result, proj: Project, cg):
@@ -327,6 +352,8 @@ def _check_no_other_refusal(res: Result, proj: Project, cg):
                 n_raise += 1
                 if name == "NotImplementedError" or ((f.cls.name if f.cls is not None else ""), name) in allowed:
                     continue
+                if name in refusal_family and _guarded_by_predicate(n, f):
+                    continue        # wherever it lives (mixin, helper): a refusal decided by the declared predicate
                 if f.module.name in data_modules and name not in refusal_family:
                     continue
                 unknown.append((f, n, name))
